@@ -78,7 +78,18 @@ def check_packet(run, case):
     # ---- build
     run.count('build_comparisons')
     try:
-        pkt = new_framer(framing, d).buildPacket(msg)
+        builder = new_framer(framing, d)
+        if case.get('after_failed_build'):
+            # the framer object has just been asked to frame a message that cannot be encoded (a register value of 70000): the error
+            # was the caller's, the next packet is built as if nothing had happened
+            from pymodbus.register_write_message import WriteSingleRegisterRequest as _W
+            from pymodbus.register_read_message import ReadHoldingRegistersResponse as _R
+            try:
+                builder.buildPacket(_W(1, 0x10000, unit=uid) if d == REQ else _R([70000], unit=uid))
+            except Exception:  # noqa
+                pass
+            run.count('builds_after_a_failed_build')
+        pkt = builder.buildPacket(msg)
     except Exception as e:  # noqa
         run.violation('build-raised:%s:%s' % (framing, k), case, repr(e))
         return False
@@ -272,6 +283,8 @@ def run(run):
                 tid = r.choice(TIDS) if i % 2 else r.randrange(65536)
                 pid = 0 if r.random() < 0.8 else r.choice([1, 0xFFFF, r.randrange(65536)])
                 case = {'framing': framing, 'm': m, 'uid': uid, 'tid': tid, 'pid': pid}
+                if i % 4 == 2:
+                    case['after_failed_build'] = True
                 res = check_packet(run, case)
                 if res is None:
                     continue
